@@ -147,9 +147,124 @@ def run(run):
     run.extra["exhaustive"] = run.tier == "thorough"
     run.extra["corpus_space"] = len(gen.all_programs())
     negatives(run, repo)
+    if run.tier == "thorough":
+        in_repo_uses(run, repo)
     # runtime half, on the facts of /repo itself
     for cfgname, f in run.for_configs():
         runtime_half(run, f)
+
+
+def extract_tests_and_examples(repo):
+    """Facts of every test / example crate of /repo (all features), through a uniquely named
+    symlink to the driver (the wrapper path is part of cargo's fingerprint, so this forces the
+    workspace crates through the extractor without deleting anything)."""
+    import glob
+    out = os.path.join(corpus_dir(), "inrepo-%d" % os.getpid())
+    shutil.rmtree(out, ignore_errors=True)
+    os.makedirs(out)
+    wdir = os.path.join(out, "w")
+    os.makedirs(wdir)
+    link = os.path.join(wdir, "rsav-extract")
+    os.symlink(extract.DRIVER, link)
+    env = extract._env()
+    env.update({"RSAV_OUT": out, "RSAV_CRATES": "*", "CARGO_INCREMENTAL": "0", "RUSTFLAGS": "-Zmir-opt-level=0 -Awarnings",
+                "RUSTC_WORKSPACE_WRAPPER": link, "CARGO_TARGET_DIR": os.path.join(extract.CACHE, "target-inrepo")})
+    r = subprocess.run(["cargo", "+nightly", "check", "--offline", "-q", "--tests", "--examples", "--all-features"], cwd=repo, env=env,
+                       stdout=subprocess.PIPE, stderr=subprocess.STDOUT, text=True)
+    files = sorted(glob.glob(os.path.join(out, "*.json")))
+    return out, files, r
+
+
+def _syntactic_table(repo, cf, fn):
+    """Independent oracle from the source text of the user's method: (attribute option, is the
+    declared return type syntactically `...::Result<..>`)."""
+    import re
+    sp = cf.span(fn["span"])
+    path = sp.file if os.path.isabs(sp.file) else os.path.join(repo, sp.file)
+    try:
+        lines = open(path).read().split("\n")
+    except OSError:
+        return None
+    i = sp.line - 1
+    attr = None
+    for j in range(i, max(-1, i - 8), -1):
+        m = re.search(r"#\[\s*handler\s*(\(([^)]*)\))?\s*\]", lines[j]) if j < len(lines) else None
+        if m:
+            attr = (m.group(2) or "").replace(" ", "")
+            break
+        if j < i and re.search(r"\bfn\b", lines[j]):
+            break
+    if attr is None:
+        return None
+    sig = " ".join(lines[i:i + 12])
+    sig = sig[:sig.index("{")] if "{" in sig else sig
+    ret = sig.split("->", 1)[1].strip() if "->" in sig else ""
+    ret = re.sub(r"\bwhere\b.*", "", ret).strip()
+    head = ret.split("<", 1)[0].strip()
+    is_res = head.split("::")[-1].strip() == "Result"
+    opts = set(x for x in attr.split(",") if x)
+    if "no_log" in opts:
+        expect = False
+    elif "result" in opts:
+        expect = True
+    else:
+        expect = is_res
+    return {"attr": attr or "-", "ret": ret, "expect_override": expect}
+
+
+def in_repo_uses(run, repo):
+    """Thorough tier: the same validation over every #[message_handlers] expansion in tests/ and
+    examples/ of /repo, with an oracle read from the source text of the user's method."""
+    out, files, r = extract_tests_and_examples(repo)
+    try:
+        if not run.require(r.returncode == 0 and len(files) >= 10, "O19.7", "in-repo-extraction", "cannot extract tests/examples of /repo: %s" % r.stdout[-400:], "%d test/example crates extracted" % len(files)):
+            return
+        total = 0
+        for fp in files:
+            cf = Facts(fp)
+            for im in cf.impls:
+                tr_ = im.get("trait") or ""
+                if not tr_.endswith("::Message") and tr_ != "actor::Message":
+                    continue
+                if not any("message_handlers" in m for m in cf.span(im["span"]).macros):
+                    continue        # hand-written impl
+                items = {it["name"]: it for it in im["items"]}
+                hb = [b for b in cf.fn_bodies() if b.is_coroutine and (b.root or "") == items.get("handle", {}).get("def")]
+                if len(hb) != 1:
+                    run.fail("O19.7", "in-repo-handle-body:%s" % cf.crate, "no unique handle body for a generated impl in %s" % cf.crate)
+                    continue
+                b = hb[0]
+                tr = tracer_of(b)
+                ret = strip_wrappers(tr.norm(tr.local(0)))
+                okh = ret[0] == "await"
+                meth = None
+                if okh:
+                    c = strip_wrappers(ret[1])
+                    if c[0] == "call" and fn_path(tr.call_term(c[1])) == "core::future::into_future::IntoFuture::into_future":
+                        c = strip_wrappers(tr.norm(tr.call_args(c[1])[0]))
+                    okh = c[0] == "call"
+                    if okh:
+                        meth = c[2]
+                        args = [strip_wrappers(tr.norm(a)) for a in tr.call_args(c[1])]
+                        okh = [a[2] if a[0] == "upvar" else None for a in args] == ["self", "msg", "actor_ref"]
+                mfn = cf.fns.get(meth) if meth else None
+                total += 1
+                key = "%s:%s" % (cf.crate, (meth or "?").split("::")[-1])
+                if not run.require(okh and mfn is not None, "O19.7", "in-repo-forwarder", "%s: generated handle() is not `self.<method>(msg, actor_ref).await`" % key, "forwarder", nontrivial=False):
+                    continue
+                reply = cf.ty(items["Reply"]["ty"]).s if "Reply" in items and "ty" in items["Reply"] else None
+                out_s = cf.ty(mfn["output"]).s
+                run.require(reply is not None and ("Output = " + reply) in out_s, "O19.7", "in-repo-reply-type", "%s: Reply = %s but the method returns %s" % (key, reply, out_s), "Reply == return type", nontrivial=False)
+                tab = _syntactic_table(repo, cf, mfn)
+                if tab is not None:
+                    has = "on_tell_result" in items
+                    run.require(has == tab["expect_override"], "O19.7", "in-repo-table",
+                                "%s (#[handler(%s)] -> %s): on_tell_result %s generated, table says it %s be" % (key, tab["attr"], tab["ret"], "is" if has else "is not", "should" if tab["expect_override"] else "should not"),
+                                "override as in the table", nontrivial=False)
+        run.require(total >= 100, "O19.7", "in-repo-floor", "only %d generated impls found in tests/examples" % total, "%d generated Message impls in tests/examples validated" % total)
+        run.extra["in_repo_generated_impls"] = total
+    finally:
+        shutil.rmtree(out, ignore_errors=True)
 
 
 def _impl_for(cf, mod, trait_suffix):
@@ -201,7 +316,7 @@ def validate_program(run, cf, row):
                 c = strip_wrappers(tr.norm(tr.call_args(c[1])[0]))
             okh = c[0] == "call" and c[2] == meth[0]
             if okh:
-                args = [strip_refs(tr.norm(a)) for a in tr.call_args(c[1])]
+                args = [strip_wrappers(tr.norm(a)) for a in tr.call_args(c[1])]
                 names = [a[2] if a[0] == "upvar" else None for a in args]
                 okh = names == ["self", "msg", "actor_ref"]
                 others = [callee(k.term) for k in live_calls(b) if callee(k.term) != meth[0] and not (fn_path(k.term) or "").startswith("core::")]
